@@ -65,7 +65,7 @@ def mc(module: str, cfg: str, **kw: Any) -> tlc.TlcResult:
 STRIP = ("wit", "text", "calls", "base", "origin", "hc", "tr", "design")
 
 
-def validate(module: str, cases: list[dict[str, Any]], chunk: int, par: int = 4) -> tuple[dict[int, tuple[str, int]], list[tlc.TlcResult]]:
+def validate(module: str, cases: list[dict[str, Any]], chunk: int, par: int = 5) -> tuple[dict[int, tuple[str, int]], list[tlc.TlcResult]]:
     """TLC batch validation of cases[i] (id = i); returns id -> (label, k)."""
     chunks = []
     for off in range(0, len(cases), chunk):
@@ -444,10 +444,11 @@ def run(tier: str, seed: int) -> Report:  # noqa: PLR0912, PLR0915
         rep.sample({"kind": c["kind"], "text": c["text"], "port": c.get("port"), "got": c.get("got"), "cfg": c.get("cfg")})
     rep.exhaustive = True
     rep.extra["exhaustive_spaces"] = (
-        "every range AST of the families in MC_RangeExpr (" + ("<= 3 items over 0..6; 2-D families T_E2a/b/c" if thorough
+        "every range AST of the families in MC_RangeExpr (" + ("<= 3 items over 0..6; 2-D families T_E2a, T_E2c, Q_E2a, Q_E2b up to 4 entries" if thorough
                                                                else "<= 2 items over 0..6 and <= 3 items over 0..2; 2-D families Q_E2a/b")
         + ") x 6 notations x parsers; every abstract URI case host class x port {none,0,1,65535} x transport x "
-        + ("every subset of settings" if thorough else "quick subset family") + " x 6 notations; "
+        + ("(quick subset family x 6 notations) and (every subset of settings x scanner / mixed notation)" if thorough
+           else "quick subset family x 6 notations") + "; "
         + ("ports 0..65535 for one host per class" if thorough else "a boundary + seeded port list") + ". Seeded cases are samples.")
 
     # ---- 5. binding self-tests: corrupted records and mutant parsers must be rejected by TLC
